@@ -14,10 +14,7 @@ TRUSTED_BASE = [
 PROPS = {
     "C01": {
         "lean_modules": ["RosedVerif.Props.C01"],
-        "theorems": ["RosedVerif.Props.C01_class", "RosedVerif.Props.C01", "RosedVerif.Props.C01_model",
-                     "RosedVerif.Props.C01_crlf", "RosedVerif.Props.C01_control_after",
-                     "RosedVerif.Props.C01_control_before", "RosedVerif.Props.C01_no_break_before_mark",
-                     "RosedVerif.Props.C01_ri_pairs"],
+        "theorems": "auto",
         "groups": ["G-split"],
         "oracle": True,
         "tie": "tables regenerated from source (translator, validated by execution on 1.25M rune values); "
@@ -26,10 +23,7 @@ PROPS = {
     },
     "C02": {
         "lean_modules": ["RosedVerif.Props.C02"],
-        "theorems": ["RosedVerif.Props.C02", "RosedVerif.Props.C02_tables", "RosedVerif.Props.C02_exclusive",
-                     "RosedVerif.Props.C02_out_of_range", "RosedVerif.Props.C02_hangul_lv",
-                     "RosedVerif.Props.C02_hangul_lvt", "RosedVerif.tree_ok", "RosedVerif.tree_tables",
-                     "RosedVerif.classOf_table"],
+        "theorems": "auto",
         "groups": ["G-class", "G-probe"],
         "oracle": True,
         "tie": "REGENERATED: the 14 range tables are re-extracted from graphemeclusters.go on every run and "
@@ -38,112 +32,112 @@ PROPS = {
     },
     "C03": {
         "lean_modules": ["RosedVerif.Props.C03"],
-        "theorems": [],
+        "theorems": "auto",
         "groups": ["A-rel"],
         "oracle": True,
         "tie": "relational run on the real code: the same operation on a stable text and on its cluster-for-cluster substitution (precomposed/decomposed, emoji ZWJ, flags, jamo), both also run on the model",
     },
     "C04": {
         "lean_modules": ["RosedVerif.Props.C04"],
-        "theorems": [],
+        "theorems": "auto",
         "groups": ["A-range", "A-chars"],
         "oracle": True,
         "tie": "hand-written model (Model/Editor.lean: Chars, subEd, RangeToIndexes) tied by A-range (exhaustive small) and A-chars",
     },
     "C05": {
         "lean_modules": ["RosedVerif.Props.C05"],
-        "theorems": [],
+        "theorems": "auto",
         "groups": ["A-commit", "A-chars", "POOL"],
         "oracle": True,
         "tie": "hand-written model (Model/Editor.lean: subEd, Commit, CommitAll, String) tied by A-commit, A-chars, POOL",
     },
     "C09": {
         "lean_modules": ["RosedVerif.Props.C09"],
-        "theorems": [],
+        "theorems": "auto",
         "groups": ["A-edit"],
         "oracle": True,
         "tie": "hand-written model (Model/Ops.lean: Insert, Delete, Overtype) tied by A-edit (exhaustive small sizes x positions + random)",
     },
     "C10": {
         "lean_modules": ["RosedVerif.Props.C10"],
-        "theorems": [],
+        "theorems": "auto",
         "groups": ["A-lines", "A-apply"],
         "oracle": True,
         "tie": "hand-written model (Model/Ops.lean: lines, Lines*, ApplyOpts) tied by A-lines, A-apply",
     },
     "C06": {
         "lean_modules": ["RosedVerif.Props.C06"],
-        "theorems": [],
+        "theorems": "auto",
         "groups": ["A-wrap", "A-manip", "A-commit"],
         "oracle": True,
         "tie": "hand-written model (Model/Manip.lean Wrap, appendWordToWrappedLine, CollapseSpace; Model/Ops.lean WrapOpts) tied by A-wrap, A-manip; Spec.wrapLines tied directly to the real code on stable vocabularies by the oracle",
     },
     "C07": {
         "lean_modules": ["RosedVerif.Props.C07"],
-        "theorems": [],
+        "theorems": "auto",
         "groups": ["A-collapse", "A-wrap", "A-justify", "A-align", "A-indent", "A-commit"],
         "oracle": True,
         "tie": "hand-written model tied by A-collapse, A-wrap, A-justify, A-align, A-indent",
     },
     "C11": {
         "lean_modules": ["RosedVerif.Props.C11"],
-        "theorems": [],
+        "theorems": "auto",
         "groups": ["A-para", "A-wrap", "A-justify", "A-align", "A-indent"],
         "oracle": True,
         "tie": "hand-written model (Model/Ops.lean applyGParagraphsOpts and the paragraph branches of Wrap/Justify/Align/Indent) tied by A-para and the layout groups",
     },
     "C12": {
         "lean_modules": ["RosedVerif.Props.C12"],
-        "theorems": [],
+        "theorems": "auto",
         "groups": ["A-justify", "A-manip", "A-commit"],
         "oracle": True,
         "tie": "hand-written model (Model/Manip.lean JustifyLine; Model/Ops.lean JustifyOpts) tied by A-justify, A-manip",
     },
     "C13": {
         "lean_modules": ["RosedVerif.Props.C13"],
-        "theorems": [],
+        "theorems": "auto",
         "groups": ["A-align", "A-manip", "A-commit"],
         "oracle": True,
         "tie": "hand-written model (Model/Manip.lean AlignLine*; Model/Ops.lean AlignOpts) tied by A-align, A-manip",
     },
     "C08": {
         "lean_modules": ["RosedVerif.Props.C08"],
-        "theorems": [],
+        "theorems": "auto",
         "groups": ["POOL"],
         "oracle": True,
         "tie": "POOL histories: every editor of a growing pool is fully re-read after every step on the real code and on the model",
     },
     "C14": {
         "lean_modules": ["RosedVerif.Props.C14"],
-        "theorems": [],
+        "theorems": "auto",
         "groups": ["A-twocol"],
         "oracle": True,
         "tie": "hand-written model (Model/Ops.lean InsertTwoColumnsOpts, Model/Manip.lean CombineColumnBlocks, Wrap) tied by A-twocol; cluster-level instance tied directly on stable vocabularies",
     },
     "C15": {
         "lean_modules": ["RosedVerif.Props.C15"],
-        "theorems": [],
+        "theorems": "auto",
         "groups": ["A-deftable"],
         "oracle": True,
         "tie": "hand-written model (Model/Ops.lean InsertDefinitionsTableOpts) tied by A-deftable; cluster-level instance tied directly on stable vocabularies",
     },
     "C16": {
         "lean_modules": ["RosedVerif.Props.C16"],
-        "theorems": [],
+        "theorems": "auto",
         "groups": ["A-table"],
         "oracle": True,
         "tie": "hand-written model (Model/Table.lean MakeTable, buildTable) tied by A-table; cluster-level instance tied directly on stable vocabularies",
     },
     "C17": {
         "lean_modules": ["RosedVerif.Props.C17"],
-        "theorems": [],
+        "theorems": "auto",
         "groups": ["A-options", "A-options2"],
         "oracle": True,
         "tie": "hand-written model (Model/Editor.lean Options.withDefaults; every XOpts in Model/Ops.lean) tied by A-options, A-options2",
     },
     "C18": {
         "lean_modules": ["RosedVerif.Props.C18"],
-        "theorems": [],
+        "theorems": "auto",
         "groups": ["A-chars", "A-commit", "A-edit", "A-lines", "A-apply", "A-para", "A-collapse", "A-wrap",
                    "A-justify", "A-align", "A-indent", "A-twocol", "A-deftable", "A-table", "A-options", "POOL"],
         "oracle": True,
@@ -151,20 +145,31 @@ PROPS = {
     },
     "C19": {
         "lean_modules": ["RosedVerif.Props.C19"],
-        "theorems": [],
+        "theorems": "auto",
         "groups": ["H-hist", "H-all"],
         "oracle": True,
         "tie": "layer H heap model (Heap/Model.lean) of gem.String with cache cells, tied by H-hist/H-all: after every step the hooks read runes, cache and cell identity of every pool value",
     },
     "C20": {
         "lean_modules": ["RosedVerif.Props.C20"],
-        "theorems": [],
+        "theorems": "auto",
         "groups": ["H-all", "Z-prog", "POOL"],
         "race_groups": ["Z-prog", "POOL"],
         "oracle": True,
         "tie": "layer H heap model tied by H-all; package-level cell monitored after every public operation (Z-prog); regenerated fact zeroCachePrefilled",
     },
 }
+
+
+def theorems_of(root, pid):
+    """every theorem declared in lean/RosedVerif/Props/<pid>.lean (property theorems only live there)"""
+    path = os.path.join(root, "lean", "RosedVerif", "Props", pid + ".lean")
+    try:
+        txt = open(path).read()
+    except OSError:
+        return []
+    txt = re.sub(r"/-.*?-/", "", txt, flags=re.S)
+    return ["RosedVerif.Props." + n for n in re.findall(r"^theorem\s+([A-Za-z_][A-Za-z0-9_']*)", txt, flags=re.M)]
 
 
 def result_tag(go):
